@@ -6,4 +6,6 @@ D == [op |-> "destroy"]
 Scn1 == <<W, W, R, W, R, R, W, W, D>>       \* rotations, an empty output, destruction with data
 Scn2 == <<W, R, D>>                         \* destruction without data
 Scn3 == <<R, R, W, W, W, R, W, D>>
+Rt(n) == [op |-> "rotate", to |-> n]
+Scn4 == <<W, W, Rt(1), W, Rt(2), W, Rt(1), Rt(1), W, D>>     \* rotation onto the name in use and back onto an earlier one
 =============================================================================
